@@ -2,7 +2,7 @@
 import re
 
 from analysis import (option_edges, Prov, Guards, fmt, fmt_short, walk, roots, short, comparison, find_calls, callee_matches,
-                      must_pass, named_switches, const_int_of, cmp_intervals, normalised_cmp)
+                      must_pass, named_switches, const_int_of, cmp_intervals, normalised_cmp, canon)
 from facts import AnchorError, strip_closure
 from harness import Rule, guarded
 
@@ -18,7 +18,7 @@ EXPLANATION = (
     "threshold); votes whose expiry is not after `now` are skipped before they are counted; a minimum below 2 is rejected by "
     "IpVote::new and ConfigBuilder::enr_peer_update_min, and the service builds IpVote from config.enr_peer_update_min. R4: "
     "every successful update is announced with Event::SocketUpdated(the address just set).")
-NOT_DECIDED = ["the 30% margin arithmetic and the max / second-max bookkeeping (value-level; the crate's quickcheck properties sample it)",
+NOT_DECIDED = ["the max / second-max bookkeeping and the literal 1.0 of the margin arithmetic (value-level; the crate's quickcheck properties sample it)",
                "sequence-number increase and signature validity are the enr crate's contract for set_udp_socket (trusted)"]
 TRUSTED = ["enr::Enr::set_udp_socket bumps seq and re-signs", "HashMap keyed by NodeId keeps one entry per key"]
 
@@ -221,6 +221,22 @@ def r3(ctx):
         r = b.reachable(0, removed_edges=edges)
         rule.check(bool(edges) and not any(s in r for s in win_sites), "a winner is reported only past the %s test" % name, "winner|%s" % name,
                    "filter_stale_find_most_frequent can report a winner %s" % msg, loc=b.loc(b.line))
+    # the margin itself: threshold = round(max_count * (1 - CLEAR_MAJORITY_PERCENTAGE)), and the constant has the value the rules were confirmed
+    # with (the property names "the clear-majority margin"; a smaller constant lets a rival that is still close win the address)
+    th = [i for i, l in enumerate(b.locals) if l.get("name") == "threshold"]
+    okm, shown = False, "no local `threshold`"
+    if th:
+        e = canon(p.local(th[0]))
+        shown = fmt_short(e)[:160]
+        muls = [x for x in walk(e) if x[0] == "bin" and x[1] == "Mul"]
+        subs = [x for x in walk(e) if x[0] == "bin" and x[1] == "Sub" and x[3][0] == "const" and str(x[3][1]).startswith("crate::service::ip_vote::CLEAR_MAJORITY_PERCENTAGE")]
+        rounds = [x for x in walk(e) if x[0] == "call" and re.search(r"f64(::<impl f64>)?::round$", x[1])]
+        okm = bool(muls) and bool(subs) and bool(rounds) and any(subs[0] in walk(m) for m in muls)
+    rule.check(okm, "threshold = round(max_count * (1 - CLEAR_MAJORITY_PERCENTAGE))", "margin|shape", "the rival threshold is computed as %s" % shown, loc=b.loc(b.line))
+    cm = facts.consts.get("crate::service::ip_vote::CLEAR_MAJORITY_PERCENTAGE") or {}
+    rule.check(cm.get("v") == "0.3", "CLEAR_MAJORITY_PERCENTAGE = 0.3 (reference value of the pinned tree)", "margin|constant",
+               "CLEAR_MAJORITY_PERCENTAGE evaluates to %s, not the 0.3 the margin was confirmed with: rivals between the two margins no longer block an update "
+               "(if the margin was retuned on purpose, the reference value in rules/c17.py must be updated with it)" % cm.get("v"))
     # counting only unexpired votes
     counts = [bi for bi, t in b.calls() if callee_matches(t, r"hash_map::Entry::<.*>::or_default$", r"Entry::or_default$") or callee_matches(t, r"HashMap::<.*>::insert$", r"HashMap::insert$")]
     r = b.reachable(0, removed_edges=fresh)
